@@ -7,6 +7,10 @@ Call monitors (attached in place, so the calls dose_filter makes itself are judg
                 doses (array, list, one-value-per-line text, csv, xml, mdoc) and the output order are read independently.
   gain_file     post(tiltstack.dose_filter) with output_file: the written MRC file, parsed from bytes, obeys the same equation.
   gain_single   post(tiltstack.dose_filter_single_image): DFT2(result) = DFT2(image) * g(freq_array re-indexed to DFT layout, dose).
+  gain_int_stack   post(tiltstack.dose_filter) on an integer-typed stack (int8..int64, uint8/16 arrays; MRC modes 0/1/6): every
+                pixel of the result equals the formula applied to the integer values within one count (the result is stored
+                back as integers); images whose filtered values leave the type's range are not judged.
+                dose_filter_single_image called directly on integer images returns the real-valued image: gain_single, 1e-10.
   gain_small_dose  the same equation for float64 calls with dose <= 1, judged on the CHANGE: DFT2(out) - DFT2(in) against
                 (g - 1) * DFT2(in), tolerance 1e-6 of the largest predicted change plus the FFT round-trip floor - so that a
                 1e-4-relative (or 1e-10-relative) effect of a tiny dose is not hidden behind the image's own amplitude.
@@ -21,6 +25,11 @@ Driver-side relational monitors (results of real calls only; no DFT except in `p
   order_equiv   the same stack handed over in the other axis order / as file gives the same images
   history_fresh three/four-step histories on caller-owned arrays mutated in place between calls (stack, doses, then pixel
                 size): every call equals a fresh call on copies of the current values (and is judged by gain_stack)
+Shapes and flow (every run): Fortran-ordered / negative-stride / sliced / read-only / swapped-axes stacks and dose vectors, pixel
+size and single-image dose as np.float64 / 0-d array / np.float32 / int, csv dose tables whose first column is permuted, gapped,
+reversed, duplicated, textual or negative, unusual relative file names (spaces, [ ] * ?, non-ASCII, sub-directory, stem ending
+in the extension's letters), the object dose_filter returned fed straight into the second pass, the array total_dose_load
+returned handed on as the dose argument.
 Planted values (every run): consecutive near-equal doses (relative gaps 1e-9..1e-5, both orders, exact repeats, identical
 images), tiny positive doses 5e-324..1e-2 around 1e-3, sizes 2^k-1/2^k/2^k+1, unusual text forms of doses, and in `extra`
 the full grid dose source x input order x output order x stack source x output file (three content variants).
@@ -46,6 +55,11 @@ ASSUMPTIONS = [
     "for even n the Nyquist bin has |k| = n/2",
     "tolerance: 1e-10 (float64 stacks) / 1e-4 (float32 stacks) times the largest |DFT bin| (spectral clauses) or largest "
     "|pixel| (spatial clauses) of the image concerned",
+    "integer-typed stacks: dose_filter stores the filtered values back into the integer stack, so they are judged within one count "
+    "(+1e-9 of the largest |pixel|) of the formula applied to the integer values; mean preservation and the relational clauses are "
+    "not judged on integer stacks (truncation is neither linear nor mean-preserving); an image whose filtered values would leave "
+    "the integer type's range is not judged",
+    "csv dose tables: the rows are in stack order; the first column is a row label and carries no order",
     "gain_small_dose: tolerance 1e-6 * max|(g-1) DFT2(in)| + 2e-13 * max|DFT2(in)| (measured round-trip noise of the real code "
     "plus the oracle's matrix DFT: 2.2e-15), float64 calls with dose <= 1 only",
     "strict 'more dose attenuates more' for dose steps below 1 is judged on the summed non-DC power of white-spectrum images "
@@ -62,7 +76,10 @@ ASSUMPTIONS = [
 CLASSES = ["random_f64", "random_f32", "plane_wave_f64", "plane_wave_f32", "plane_axis_nyquist", "parity_nonsquare",
            "extreme_aspect", "min_size", "max_size", "n1", "n10", "dose_unsorted", "dose_zero_mix", "dose_textfile",
            "dose_mdoc", "dose_csv", "dose_xml", "dose_list_int", "stack_file", "pixel_extreme", "impulse_const",
-           "mixed_content", "dose_near_equal", "dose_tiny", "pow2_sizes", "history_inplace"]
+           "mixed_content", "dose_near_equal", "dose_tiny", "pow2_sizes", "history_inplace", "int_stack"]
+INT_TYPES = ["int16", "uint8", "uint16", "int32", "int64", "int8"]
+LAYOUTS = ["c", "fortran", "negstride", "slice", "readonly", "swapaxes"]
+PATH_STYLES = ["plain", "spaces", "brackets", "glob_chars", "non_ascii", "subdir", "ext_letters"]
 WHITE = ("normal", "impulse", "counts")
 FLOOR = 2e-13
 TINY_POOL = [1e-9, 5e-9, 1e-8, 1e-7, 1e-6, 3e-6, 1e-5, 1e-4, 6e-4, 9e-4, 9.99e-4, float(np.nextafter(1e-3, 0)), 1e-3,
@@ -79,11 +96,11 @@ def plan(tier):
         return dict(n_cases=11 * k, shards=2, classes=CLASSES, timeout_s=600, env=ENV,
                     min_evals={"gain_stack": 8000, "gain_single": 2000, "gain_small_dose": 1500, "gain_file": 100, "dc_mean": 1400,
                                "plane_wave": 150, "zero_dose": 240, "linearity": 240, "power": 1000, "monotone": 1000,
-                               "composition": 240, "order_equiv": 240, "history_fresh": 30})
+                               "composition": 240, "order_equiv": 240, "history_fresh": 30, "gain_int_stack": 300})
     return dict(n_cases=260 * k, shards=12, classes=CLASSES, timeout_s=3000, env=ENV,
                 min_evals={"gain_stack": 180000, "gain_single": 45000, "gain_small_dose": 35000, "gain_file": 1000, "dc_mean": 30000,
                            "plane_wave": 2500, "zero_dose": 6000, "linearity": 6000, "power": 28000, "monotone": 28000,
-                           "composition": 6000, "order_equiv": 6000, "history_fresh": 700})
+                           "composition": 6000, "order_equiv": 6000, "history_fresh": 700, "gain_int_stack": 2500})
 
 
 # ---- quantifier ---------------------------------------------------------------------------------
@@ -140,16 +157,16 @@ def _df_resolve(A):
         return None
     t = A["tilt_stack"]
     if isinstance(t, np.ndarray):
-        if t.ndim not in (2, 3) or t.dtype not in (np.float32, np.float64):
+        if t.ndim not in (2, 3) or not (t.dtype in (np.float32, np.float64) or (t.dtype.kind in "iu" and t.dtype.itemsize <= 8)):
             return None
         X = orc.to_nyx(t, A["input_order"])
         dt = str(t.dtype)
     elif isinstance(t, str) and t.endswith(".mrc") and os.path.isfile(t):
         pm = files.parse_mrc(t)
-        if "error" in pm or pm["mode"] != 2:
+        if "error" in pm or pm["mode"] not in (0, 1, 2, 6):
             return None
         X = pm["data"].transpose(2, 1, 0)
-        dt = "float32"
+        dt = str(np.dtype(pm["dtype"]).newbyteorder("=")) if pm["mode"] != 2 else "float32"
     else:
         return None
     try:
@@ -181,7 +198,50 @@ def _df_snapshot(A):
     return A["__c16"]
 
 
+def _int_post(ctx, old, result, base):
+    """integer-typed stack: the filtered values are stored back as integers, so each pixel is judged against the formula
+    applied to the integer values within one count; an image whose filtered values leave the integer type's range is not judged."""
+    X, p, d = old["X"], old["p"], old["d"]
+    n, H, W = X.shape
+    info = np.iinfo(np.dtype(old["dtype"]))
+    Y = np.asarray(orc.to_nyx(result, old["out_order"]), dtype=np.float64)
+    FX = orc.dft2(X)
+    refs = []
+    for z in range(n):
+        ref = np.real(orc.idft2(FX[z] * orc.gain(H, W, p, d[z])))
+        refs.append(ref)
+        if ref.min() < info.min + 1 or ref.max() > info.max - 1:
+            ctx.ood("gain_int_stack")
+            continue
+        tol = 1.0 + 1e-9 * float(np.abs(X[z]).max())
+        diff = np.abs(Y[z] - ref)
+        ok = bool(np.all(diff <= tol))
+        w = None
+        if not ok:
+            y, x = np.unravel_index(int(np.nanargmax(diff)), diff.shape)
+            w = dict(base, image=z, dose=float(d[z]), pixel_y_x=[int(y), int(x)], got=float(Y[z, y, x]), formula=float(ref[y, x]), input=float(X[z, y, x]),
+                     n_pixels_off=int((diff > tol).sum()), unchanged=bool(np.array_equal(Y[z], X[z])))
+        ctx.check("gain_int_stack", ok, w)
+    if old["out_file"] is not None:
+        pm = files.parse_mrc(old["out_file"]) if os.path.isfile(old["out_file"]) else {"error": "file not written"}
+        if "error" in pm or tuple(pm["dims"]) != (W, H, n):
+            ctx.check("gain_file", False, dict(base, what="output file unreadable or wrong dims", parse=pm.get("error"), dims=pm.get("dims")))
+            return
+        Z = np.asarray(pm["data"].transpose(2, 1, 0), dtype=np.float64)
+        good = all(bool(np.all(np.abs(Z[z] - refs[z]) <= 1.0 + 1e-9 * float(np.abs(X[z]).max()))) or refs[z].min() < info.min + 1 or refs[z].max() > info.max - 1
+                   for z in range(n))
+        ctx.check("gain_file", good, None if good else dict(base, where="output file of an integer stack", mode=pm["mode"]))
+
+
 def _df_post(ctx, A, old, result):
+    if old["dtype"] not in REL:
+        base = {"H": old["X"].shape[1], "W": old["X"].shape[2], "n": old["X"].shape[0], "pixel": old["p"], "dtype": old["dtype"],
+                "orders": [old["in_order"], old["out_order"]], "stack": old["src"], "dose_source": old["dose_src"]}
+        if not isinstance(result, np.ndarray) or result.ndim not in (2, 3) or orc.to_nyx(result, old["out_order"]).shape != old["X"].shape:
+            ctx.check("gain_int_stack", False, dict(base, what="returned stack has the wrong shape", got=list(getattr(result, "shape", []))))
+            return
+        _int_post(ctx, old, result, base)
+        return
     X, p, d, rel = old["X"], old["p"], old["d"], REL[old["dtype"]]
     n, H, W = X.shape
     base = {"H": H, "W": W, "n": n, "pixel": p, "dtype": old["dtype"], "orders": [old["in_order"], old["out_order"]],
@@ -219,7 +279,7 @@ def _si_applicable(A):
     im, fa, dose = A["image"], A["freq_array"], A["dose"]
     if not (isinstance(im, np.ndarray) and isinstance(fa, np.ndarray) and im.ndim == 2 and fa.shape == im.shape):
         return False
-    if im.dtype not in (np.float32, np.float64) or fa.dtype.kind != "f":
+    if not (im.dtype in (np.float32, np.float64) or (im.dtype.kind in "iu" and im.dtype.itemsize <= 8)) or fa.dtype.kind != "f":
         return False
     try:
         dv = float(dose)
@@ -232,13 +292,13 @@ def _si_applicable(A):
 
 def _si_snapshot(A):
     return {"X": np.array(A["image"], dtype=np.float64), "f": orc.uncentre(A["freq_array"]), "dose": float(A["dose"]),
-            "dtype": str(A["image"].dtype)}
+            "dtype": str(A["image"].dtype) if A["image"].dtype.kind == "f" else "float64", "image_dtype": str(A["image"].dtype)}
 
 
 def _si_post(ctx, A, old, result):
     X = old["X"]
     H, W = X.shape
-    base = {"H": H, "W": W, "dose": old["dose"], "dtype": old["dtype"]}
+    base = {"H": H, "W": W, "dose": old["dose"], "dtype": old["image_dtype"]}
     if not isinstance(result, np.ndarray) or result.shape != X.shape or np.iscomplexobj(result):
         ctx.check("gain_single", False, dict(base, what="result is not a real image of the input's shape",
                                              got=str(getattr(result, "shape", None)), got_dtype=str(getattr(result, "dtype", None))))
@@ -254,9 +314,10 @@ def _si_post(ctx, A, old, result):
 def setup(ctx):
     from cryocat import ioutils, tiltstack
     ctx.ts = tiltstack
+    ctx.io = ioutils
     f_single = monitors.wrap(ctx, tiltstack, "dose_filter_single_image", "gain_single", _si_post, _si_applicable, _si_snapshot)
     f_stack = monitors.wrap(ctx, tiltstack, "dose_filter", "gain_stack", _df_post, _df_applicable, _df_snapshot)
-    ctx.declare("gain_small_dose", "history_fresh", "gain_file", "dc_mean", "plane_wave", "zero_dose", "linearity", "power", "monotone", "composition", "order_equiv")
+    ctx.declare("gain_int_stack", "gain_small_dose", "history_fresh", "gain_file", "dc_mean", "plane_wave", "zero_dose", "linearity", "power", "monotone", "composition", "order_equiv")
     monitors.trace(ctx, [
         ("tiltstack.dose_filter", f_stack, {"per_tilt": "dose_filter_single_image(image",
                                             "write_out": "ts.write_out(output_file)"}),
@@ -363,6 +424,55 @@ def _mdoc_text(rng, n):
     return eol.join(lines) + eol, (e + prior)[order]
 
 
+def _to_int(x, dtype):
+    """scale real-valued images into a comfortable band of the integer type and round"""
+    x = np.asarray(x, dtype=np.float64)
+    info = np.iinfo(np.dtype(dtype))
+    span = float(info.max) - float(info.min)
+    centre = 0.0 if info.min < 0 else (info.max + 1) / 2.0
+    half = min(span / 8.0, 20000.0)
+    out = np.empty(x.shape)
+    for z in range(x.shape[0]):
+        a = x[z] - x[z].mean()
+        m = float(np.abs(a).max())
+        out[z] = centre + (a / m * half if m > 0 else 0.0)
+    return np.rint(out).astype(dtype)
+
+
+def _layout(a, kind):
+    """the same values in another memory layout"""
+    a = np.asarray(a)
+    if kind == "fortran":
+        return np.asfortranarray(a)
+    if kind == "negstride":
+        rev = tuple(slice(None, None, -1) for _ in range(a.ndim))
+        return np.ascontiguousarray(a[rev])[rev]
+    if kind == "slice":
+        big = np.zeros(tuple(2 * m + 1 for m in a.shape), dtype=a.dtype)
+        view = big[tuple(slice(1, 2 * m, 2) for m in a.shape)]
+        view[...] = a
+        return view
+    if kind == "readonly":
+        b = np.array(a, copy=True)
+        b.setflags(write=False)
+        return b
+    if kind == "swapaxes" and a.ndim >= 2:
+        return np.ascontiguousarray(np.swapaxes(a, -1, -2)).swapaxes(-1, -2)
+    return np.array(a, copy=True)
+
+
+def _path(ctx, case, stem, ext):
+    """file names that are legal but unusual; relative to the scratch directory (the cwd of the shard)"""
+    st = case.get("path_style", "plain")
+    name = {"plain": stem, "spaces": "tilt series " + stem, "brackets": stem + " [bin 2] (raw)", "glob_chars": stem + "_*?",
+            "non_ascii": stem + "_\u00e4\u00df\u03b1", "subdir": os.path.join("sub dir", "\u00fc", stem), "ext_letters": stem + "." + ext.strip(".") + ext.strip(".")}[st]
+    p = name + ext
+    d = os.path.dirname(p)
+    if d:
+        os.makedirs(os.path.join(ctx.scratch, d), exist_ok=True)
+    return p if os.path.realpath(os.getcwd()) == os.path.realpath(ctx.scratch) else os.path.join(ctx.scratch, p)
+
+
 def _plant_pair(rng, doses, j, direction):
     """make doses[j+1] near-equal to doses[j]: relative gap log-uniform in 1e-9..9e-6 (inside np.isclose's default window),
     upwards (+1), downwards (-1) or an exact repeat (0) -> (j, j+1, identical images?)"""
@@ -403,9 +513,26 @@ def _dose_text(rng, src, doses, rep):
         vals[flags] = _q64(rng.uniform(0, 300, nrem))
         hdr = ",TiltAngle,CorrectedDose" + (",Removed" if with_removed else "")
         rows = [hdr]
-        for j in range(n + nrem):
-            rows.append("%d,%.2f,%.6f" % (j, -30 + 3.0 * j, vals[j]) + ((",%s" % bool(flags[j])) if with_removed else ""))
-        return "\n".join(rows) + "\n", {"removed_rows": int(nrem), "removed_column": bool(with_removed)}
+        m = n + nrem
+        # the first column is only a row label: rows are in stack order whatever it holds
+        istyle = ["range", "acquisition", "reversed", "gapped_shuffled", "duplicated", "strings", "negative"][int(rng.integers(0, 7))]
+        if m == 1 or istyle == "range":
+            labels = [str(j) for j in range(m)]
+        elif istyle == "acquisition":
+            labels = [str(int(v)) for v in rng.permutation(m)]
+        elif istyle == "reversed":
+            labels = [str(m - j) for j in range(m)]
+        elif istyle == "gapped_shuffled":
+            labels = [str(int(v)) for v in rng.permutation(np.arange(3, 3 + 7 * m, 7))]
+        elif istyle == "duplicated":
+            labels = [str(int(v)) for v in rng.permutation(np.repeat(np.arange((m + 1) // 2), 2)[:m])]
+        elif istyle == "strings":
+            labels = ["img_%03d" % int(v) for v in rng.permutation(m)]
+        else:
+            labels = [str(int(v)) for v in rng.permutation(np.arange(-(m // 2), m - m // 2))[::-1]]
+        for j in range(m):
+            rows.append("%s,%.2f,%.6f" % (labels[j], -30 + 3.0 * j, vals[j]) + ((",%s" % bool(flags[j])) if with_removed else ""))
+        return "\n".join(rows) + "\n", {"removed_rows": int(nrem), "removed_column": bool(with_removed), "first_column": istyle}
     if src == "xml":
         return ("<?xml version=\"1.0\" encoding=\"utf-8\"?>\n<TiltSeries AreAnglesInverted=\"False\" PlaneNormal=\"0, 0, 1\">\n  <Angles>\n"
                 + "\n".join("%.2f" % (-30 + 3.0 * j) for j in range(n)) + "\n  </Angles>\n  <Dose>\n" + "\n".join("%.6f" % v for v in doses)
@@ -516,6 +643,12 @@ def gen(ctx, i, cls):
             H, W = int(rng.choice(sizes[:8])), int(rng.choice(sizes[:8]))
         n = int(rng.choice([1, 2, 3, 4, 5, 7, 8, 9, 10, 10]))
         kinds = [str(rng.choice(["normal", "impulse"])) for _ in range(n)]
+    elif cls == "int_stack":
+        dtype = INT_TYPES[rep % len(INT_TYPES)]
+        n = int(rng.integers(1, 8))
+        kinds = [str(rng.choice(["normal", "plane", "impulse", "counts"])) for _ in range(n)]
+        stack_src = "file" if (dtype in ("int16", "uint16", "int8") and rep % 2) else "array"
+        out_file = bool(dtype == "int16" and rep % 3 == 0)
     elif cls == "history_inplace":
         n = int(rng.integers(2, 9))
         out_file = False
@@ -546,6 +679,10 @@ def gen(ctx, i, cls):
             doses[:] = 0.0
     elif cls == "n1" and rep % 4 == 0:
         doses = np.array([float(rng.choice([0.0, 300.0]))])
+    elif cls == "int_stack":
+        doses = rng.uniform(2.0, 150.0, n)                       # never zero: an unfiltered result must be visible
+    elif cls == "dose_zero_mix" and rep % 6 == 4:
+        doses[:] = float(rng.uniform(1, 300))                    # a single distinct dose
     doses = np.minimum(np.asarray(doses, dtype=np.float64), 300.0)
     pairs = []                                                   # (j, j+1, identical images) with near-equal / repeated doses
     planted = None
@@ -595,8 +732,13 @@ def gen(ctx, i, cls):
     for (j, k, same) in pairs:
         if same:
             imgs[k], descr[k] = imgs[j].copy(), dict(descr[j])
-    X = np.stack(imgs).astype(dtype)
-    X2 = rng.normal(0.0, float(rng.uniform(0.5, 3)), (n, H, W)).astype(dtype)
+    if dtype in INT_TYPES:
+        X = _to_int(np.stack(imgs), dtype)
+        for dd in descr:
+            dd["kind"] = dd["kind"] if dd["kind"] != "plane" else "plane_int"      # rounded: no longer an exact eigenfunction
+    else:
+        X = np.stack(imgs).astype(dtype)
+    X2 = rng.normal(0.0, float(rng.uniform(0.5, 3)), (n, H, W)).astype(dtype if dtype in REL else "float64")
     ab = [float(rng.uniform(-3, 3)), float(rng.uniform(-3, 3))]
     delta = np.where(rng.random(n) < 0.25, 0.0, rng.uniform(1.0, 120.0, n))
     delta = np.where(doses + delta <= 300.0, delta, 0.0)
@@ -617,12 +759,16 @@ def gen(ctx, i, cls):
     case = {"i": i, "cls": cls, "n": n, "H": H, "W": W, "dtype": dtype, "pixel": pixel, "doses": doses, "X": X, "X2": X2, "ab": ab,
             "delta": delta, "d2": d2, "descr": descr, "dose_src": dose_src, "dose_text": dose_text, "stack_src": stack_src,
             "out_file": out_file, "in_order": in_order, "out_order": out_order, "rel_orders": rel_orders, "alt_orders": alt_orders,
-            "pairs": pairs, "planted": planted,
+            "pairs": pairs, "planted": planted, "layout": LAYOUTS[int(rng.integers(0, len(LAYOUTS)))],
+            "dose_layout": str(rng.choice(["plain", "strided", "negstride", "readonly"])),
+            "pixel_kind": str(rng.choice(["float", "np.float64", "0d", "float"])), "path_style": PATH_STYLES[int(rng.integers(0, len(PATH_STYLES)))],
+            "int_probe": INT_TYPES[int(rng.integers(0, len(INT_TYPES)))], "dose_kind": str(rng.choice(["float", "np.float64", "0d", "np.float32", "int"])),
             "nontrivial": bool(np.any((doses > 0) & vary))}
     case["summary"] = {"n": n, "H": H, "W": W, "dtype": dtype, "pixel": float(pixel), "pixel_type": type(pixel).__name__,
                        "doses": [float(v) for v in doses], "orders": [in_order, out_order], "content": [d["kind"] for d in descr],
                        "waves": [[d["ky"], d["kx"]] for d in descr if d["kind"] == "plane"][:4], "dose_source": dose_src,
-                       "csv": csv_extra, "stack_source": stack_src, "output_file": out_file, "planted": planted,
+                       "csv": csv_extra, "stack_source": stack_src, "output_file": out_file, "planted": planted, "layout": case["layout"], "dose_layout": case["dose_layout"],
+                       "pixel_kind": case["pixel_kind"], "path_style": case["path_style"], "int_probe": case["int_probe"],
                        "near_equal_pairs": [[j, k, same, repr(float(doses[j])), repr(float(doses[k]))] for (j, k, same) in pairs],
                        "first_pixels": [round(float(v), 5) for v in X[0].ravel()[:3]]}
     return case
@@ -636,7 +782,17 @@ def nontrivial(case):
 def _dose_input(ctx, case, tag):
     src, d = case["dose_src"], case["doses"]
     if src == "array":
-        return np.array(d, dtype=np.float64)
+        dl = case.get("dose_layout", "plain")
+        a = np.array(d, dtype=np.float64)
+        if dl == "strided":
+            big = np.full(3 * len(a) + 1, 7.0)
+            big[1::3] = a
+            return big[1::3]
+        if dl == "negstride":
+            return np.ascontiguousarray(a[::-1])[::-1]
+        if dl == "readonly":
+            a.setflags(write=False)
+        return a
     if src == "list_float":
         return [float(v) for v in d]
     if src == "list_int":
@@ -648,7 +804,7 @@ def _dose_input(ctx, case, tag):
     ext = {"text": ".txt", "mdoc": ".mdoc", "csv": ".csv", "xml": ".xml"}[src]
     if src == "text" and (case["i"] // len(CLASSES)) % 2:
         ext = ".dose"
-    p = os.path.join(ctx.scratch, "dose_%d_%s%s" % (case["i"], tag, ext))
+    p = _path(ctx, case, "dose_%d_%s" % (case["i"], tag), ext)
     with open(p, "w", newline="") as f:
         f.write(case["dose_text"])
     return p
@@ -663,6 +819,40 @@ def _filter(ctx, case, X, doses, label, orders):
         return None
     Y = orc.to_nyx(r, oo)
     return Y if Y.shape == X.shape else None
+
+
+def _filter_raw(ctx, stack, pixel, dose_arg, label, orders, shape):
+    io, oo = orders
+    ok, r = ctx.call(label, ctx.ts.dose_filter, stack, pixel, dose_arg, input_order=io, output_order=oo)
+    if not ok or not isinstance(r, np.ndarray) or r.ndim != 3:
+        return None
+    Y = orc.to_nyx(r, oo)
+    return Y if Y.shape == tuple(shape) else None
+
+
+def _run_int(ctx, case, pixel):
+    """integer-typed stacks: the observed call (judged by gain_int_stack), the other axis order, and the single-image function
+    applied directly to every integer image (judged by gain_single at float64 accuracy)."""
+    X, n, H, W = case["X"], case["n"], case["H"], case["W"]
+    if case["stack_src"] == "file":
+        stack_in = _path(ctx, case, "stack_%d" % case["i"], ".mrc")
+        files.write_mrc_raw(stack_in, X.transpose(2, 1, 0), mode={"int8": 0, "int16": 1, "uint16": 6}[case["dtype"]])
+    else:
+        stack_in = _layout(orc.from_nyx(X, case["in_order"]), case["layout"])
+    kw = {"input_order": case["in_order"], "output_order": case["out_order"]}
+    outp = None
+    if case["out_file"]:
+        outp = _path(ctx, case, "filtered_%d" % case["i"], ".mrc")
+        kw["output_file"] = outp
+    ctx.call("dose_filter(integer stack)", ctx.ts.dose_filter, stack_in, pixel, _dose_input(ctx, case, "a"), **kw)
+    io, oo = case["alt_orders"]
+    ctx.call("dose_filter(integer stack, other order)", ctx.ts.dose_filter, orc.from_nyx(X, io), pixel, np.array(case["doses"]), input_order=io, output_order=oo)
+    fc = orc.freq(H, W, pixel)[np.ix_((np.arange(H) - H // 2) % H, (np.arange(W) - W // 2) % W)]
+    for z in range(n):
+        ctx.call("dose_filter_single_image(integer image)", ctx.ts.dose_filter_single_image, np.array(X[z], copy=True), float(case["doses"][z]), np.array(fc, copy=True))
+    for f in (outp, stack_in if isinstance(stack_in, str) else None):
+        if f and os.path.exists(f):
+            os.remove(f)
 
 
 def _close(a, b, tol):
@@ -680,25 +870,31 @@ def _close(a, b, tol):
 def run_case(ctx, case):
     ts = ctx.ts
     X, n, H, W = case["X"], case["n"], case["H"], case["W"]
-    rel = REL[case["dtype"]]
     doses, pixel = case["doses"], case["pixel"]
+    if isinstance(pixel, float):
+        pixel = {"float": pixel, "np.float64": np.float64(pixel), "0d": np.array(pixel)}[case["pixel_kind"]]
+    if case["dtype"] not in REL:
+        _run_int(ctx, case, pixel)
+        return
+    rel = REL[case["dtype"]]
     info = {"H": H, "W": W, "n": n, "pixel": float(pixel), "dtype": case["dtype"]}
     amax = np.maximum(np.abs(X.astype(np.float64)).reshape(n, -1).max(axis=1), 0.0)
     tol_sp = rel * amax + 1e-300
     # ---- the observed call --------------------------------------------------------------------------
     if case["stack_src"] == "file":
-        stack_in = os.path.join(ctx.scratch, "stack_%d.mrc" % case["i"])
+        stack_in = _path(ctx, case, "stack_%d" % case["i"], ".mrc")
         files.write_mrc_raw(stack_in, X.transpose(2, 1, 0), mode=2)
     elif case["stack_src"] == "array2d":
-        stack_in = np.array(X[0].T if case["in_order"] == "xyz" else X[0], copy=True)
+        stack_in = _layout(X[0].T if case["in_order"] == "xyz" else X[0], case["layout"])
     else:
-        stack_in = orc.from_nyx(X, case["in_order"])
+        stack_in = _layout(orc.from_nyx(X, case["in_order"]), case["layout"])
     kw = {"input_order": case["in_order"], "output_order": case["out_order"]}
     outp = None
     if case["out_file"]:
-        outp = os.path.join(ctx.scratch, "filtered_%d.mrc" % case["i"])
+        outp = _path(ctx, case, "filtered_%d" % case["i"], ".mrc")
         kw["output_file"] = outp
-    ok, r = ctx.call("dose_filter", ts.dose_filter, stack_in, pixel, _dose_input(ctx, case, "a"), **kw)
+    dose_in = _dose_input(ctx, case, "a")
+    ok, r = ctx.call("dose_filter", ts.dose_filter, stack_in, pixel, dose_in, **kw)
     for f in (outp,):
         if f and os.path.exists(f):
             os.remove(f)
@@ -743,7 +939,23 @@ def run_case(ctx, case):
     # image with an independently built centred frequency array, so the gain_single monitor is reached in either case
     fc = orc.freq(H, W, pixel)[np.ix_((np.arange(H) - H // 2) % H, (np.arange(W) - W // 2) % W)]
     for z in range(n):
-        ctx.call("dose_filter_single_image", ts.dose_filter_single_image, np.array(X[z], copy=True), float(doses[z]), np.array(fc, copy=True))
+        dz = float(doses[z])
+        kind = case["dose_kind"] if z % 2 == 0 else "float"
+        dz = {"float": dz, "np.float64": np.float64(dz), "0d": np.array(dz), "np.float32": np.float32(dz) if float(np.float32(dz)) == dz else dz,
+              "int": int(dz) if dz.is_integer() else dz}[kind]
+        ctx.call("dose_filter_single_image", ts.dose_filter_single_image, _layout(X[z], case["layout"] if z % 2 else "c"), dz, np.array(fc, copy=True))
+    # the same function on integer-typed images (camera counts): the result is the real-valued filtered image
+    zi = case["i"] % n
+    ctx.call("dose_filter_single_image(integer image)", ts.dose_filter_single_image, _to_int(X[zi:zi + 1].astype(np.float64), case["int_probe"])[0],
+             float(doses[zi]) if doses[zi] >= 1.0 else float(doses[zi]) + 20.0, np.array(fc, copy=True))
+    # the very object a loader returned, handed on as the dose argument
+    if isinstance(dose_in, str):
+        okl, loaded = ctx.call("total_dose_load", ctx.io.total_dose_load, dose_in)
+        if okl and isinstance(loaded, np.ndarray) and loaded.shape == (n,):
+            Yl = _filter_raw(ctx, orc.from_nyx(X, case["in_order"]), pixel, loaded, "dose_filter(loader output as dose)", (case["in_order"], case["out_order"]), X.shape)
+            if Yl is not None:
+                w = _close(Yl, Y, tol_sp)
+                ctx.check("order_equiv", w is None, None if w is None else dict(info, what="doses handed over as the loader's returned array instead of the path", dose_source=case["dose_src"], **w))
 
     ro = case["rel_orders"]
     # order_equiv: other axis orders / array instead of file give the same images
@@ -814,7 +1026,9 @@ def run_case(ctx, case):
 
     # composition: d1 then d2 == d1 + d2
     d2 = case["d2"]
-    Y12 = _filter(ctx, case, Y.astype(X.dtype), d2, "dose_filter(second pass)", ro[4])
+    # second pass on the very object the first call returned (for 'xyz' a transposed view), declared in its output order
+    Y12 = _filter_raw(ctx, r if r.ndim == 3 else orc.from_nyx(Y.astype(X.dtype), case["out_order"]), pixel, np.array(d2, dtype=np.float64),
+                      "dose_filter(second pass)", (case["out_order"], ro[4][1]), X.shape)
     Ys = _filter(ctx, case, X, doses + d2, "dose_filter(summed dose)", ro[5])
     if Y12 is not None and Ys is not None:
         w = _close(Y12, Ys, tol_sp)
@@ -911,12 +1125,13 @@ DOSE_SOURCES = ["array", "list_float", "list_int", "array_int", "array_f32", "te
 
 
 def _option_grid(ctx):
-    """dose source x input order x output order x stack source x output file, each with three content variants (noise with
-    spread doses; axis-aligned plane waves with a near-equal dose pair; impulses with tiny doses).  Judged by gain_stack /
+    """dose source x input order x output order x stack source x output file, each with four content variants (noise with
+    spread doses; axis-aligned plane waves with a near-equal dose pair; impulses with tiny doses; int16 stacks), random memory
+    layouts and unusual file names.  Judged by gain_stack /
     gain_file / gain_small_dose; every pair of options occurs together at least 24 times."""
     cnt = 0
     reps = 1 if ctx.tier == "quick" else 4
-    for variant in range(3 * reps):
+    for variant in range(4 * reps):
         for si, src in enumerate(DOSE_SOURCES):
             for io in ORDERS:
                 for oo in ORDERS:
@@ -930,8 +1145,12 @@ def _option_grid(ctx):
                             dtype = "float32" if stack_src == "file" else "float64"
                             p = float(rng.uniform(0.5, 10))
                             doses = rng.uniform(0, 300, n)
-                            v = variant % 3
-                            if v == 0:
+                            v = variant % 4
+                            if v == 3:                           # integer-typed stack (int16 arrays, 2-D images, mode-1 files)
+                                dtype = "int16"
+                                doses = rng.uniform(2, 150, n)
+                                X = rng.normal(0, 2, (n, H, W))
+                            elif v == 0:
                                 X = rng.normal(0, 2, (n, H, W))
                             elif v == 1:
                                 X = np.stack([orc.plane_wave(H, W, *[(0, 1), (1, 0), (0, -(W // 2)), ((H - 1) // 2, 0)][int(rng.integers(0, 4))],
@@ -954,25 +1173,28 @@ def _option_grid(ctx):
                                 text, doses = _mdoc_text(rng, n)
                             elif src in ("text", "csv", "xml"):
                                 text, _ = _dose_text(rng, src, doses, idx)
-                            pseudo = {"i": 3 * 10 ** 6 + idx, "dose_src": src, "doses": doses, "dose_text": text}
-                            X = X.astype(dtype)
+                            pseudo = {"i": 3 * 10 ** 6 + idx, "dose_src": src, "doses": doses, "dose_text": text,
+                                      "path_style": PATH_STYLES[int(rng.integers(0, len(PATH_STYLES)))],
+                                      "dose_layout": str(rng.choice(["plain", "strided", "negstride", "readonly"]))}
+                            lay = LAYOUTS[int(rng.integers(0, len(LAYOUTS)))]
+                            X = _to_int(X, dtype) if dtype == "int16" else X.astype(dtype)
                             ctx.cur = {"index": "extra", "cls": "option_grid", "summary": {"H": H, "W": W, "n": n, "pixel": p, "doses": [repr(float(d)) for d in doses],
                                                                                          "orders": [io, oo], "dose_source": src, "stack_source": stack_src,
-                                                                                         "output_file": out_file, "variant": v}}
+                                                                                         "output_file": out_file, "variant": v, "layout": lay, "path_style": pseudo["path_style"]}}
                             if stack_src == "file":
-                                stack_in = os.path.join(ctx.scratch, "grid_%d.mrc" % idx)
-                                files.write_mrc_raw(stack_in, X.transpose(2, 1, 0), mode=2)
+                                stack_in = _path(ctx, pseudo, "grid_%d" % idx, ".mrc")
+                                files.write_mrc_raw(stack_in, X.transpose(2, 1, 0), mode=1 if dtype == "int16" else 2)
                             elif stack_src == "array2d":
-                                stack_in = np.array(X[0].T if io == "xyz" else X[0], copy=True)
+                                stack_in = _layout(X[0].T if io == "xyz" else X[0], lay)
                             else:
-                                stack_in = orc.from_nyx(X, io)
+                                stack_in = _layout(orc.from_nyx(X, io), lay)
                             kw = {"input_order": io, "output_order": oo}
-                            outp = os.path.join(ctx.scratch, "grid_out_%d.mrc" % idx) if out_file else None
+                            outp = _path(ctx, pseudo, "grid_out_%d" % idx, ".mrc") if out_file else None
                             if outp:
                                 kw["output_file"] = outp
                             dose_in = _dose_input(ctx, pseudo, "g")
                             ok, r = ctx.call("dose_filter(option grid)", ctx.ts.dose_filter, stack_in, p, dose_in, **kw)
-                            if ok and isinstance(r, np.ndarray) and r.ndim in (2, 3) and orc.to_nyx(r, oo).shape == X.shape:
+                            if ok and dtype != "int16" and isinstance(r, np.ndarray) and r.ndim in (2, 3) and orc.to_nyx(r, oo).shape == X.shape:
                                 Y = orc.to_nyx(r, oo)
                                 tol = REL[dtype] * np.abs(X.astype(np.float64)).reshape(n, -1).max(axis=1)
                                 for z in range(n):
@@ -982,4 +1204,4 @@ def _option_grid(ctx):
                                 if f and os.path.exists(f):
                                     os.remove(f)
     ctx.extra["option_grid_calls"] = cnt
-    ctx.extra["option_grid"] = "dose source (9) x input order (2) x output order (2) x stack source (3) x output file (2), %d content variants" % (3 * reps)
+    ctx.extra["option_grid"] = "dose source (9) x input order (2) x output order (2) x stack source (3) x output file (2), %d content variants" % (4 * reps)
